@@ -356,6 +356,31 @@ func c18Scripted(c *core.Ctx, id string, mode mon.Mode, q, entry int, stim strin
 		c.Inconclusive(id, "watchdog: decisive call neither returned nor was seen parked")
 		return
 	}
+	// while the first writer is parked, a second caller whose context has already ended must not wait at all
+	if parked && (entry == wl.ECtxWrite1 || entry == wl.ECtxWritev) {
+		cctx, ccancel := context.WithCancel(bg)
+		ccancel()
+		second := make(chan c18Res, 1)
+		go func() {
+			n, err := wl.DoWrite(rig.Ch, cctx, entry, mon.Payload(2, 77, 32), rand.New(rand.NewSource(77)))
+			second <- c18Res{n, err}
+		}()
+		select {
+		case r2 := <-second:
+			c.Count("second_writer_calls", 1)
+			if r2.err == nil {
+				viol("accepted-beyond-capacity", "a second write (already-cancelled context) returned success while the queue was full and another writer was parked")
+				return
+			}
+		case <-time.After(4 * time.Second):
+			if mon.ParkedIn("(*channel).CtxWrite", "sync.Mutex.Lock", "semacquire") > 0 {
+				viol("second-writer-blocked-behind-parked-writer", "while one writer waits for queue space, a second CtxWrite call whose context had already ended is blocked on a lock (it observes neither its context nor the channel) instead of returning its context error")
+			} else {
+				c.Inconclusive(id, "watchdog: second writer did not return")
+			}
+			return
+		}
+	}
 	// stimulus
 	var closeDone chan struct{}
 	if !returned {
